@@ -749,6 +749,11 @@ func (obj *SparseInt8VectorJointIterator) Ok() bool {
          !(obj.s2 == nil || obj.s2.GetInt8() == int8(0))
 }
 func (obj *SparseInt8VectorJointIterator) Next() {
+  // skip positions where both operands hold a zero
+  for obj.next() && !obj.Ok() {
+  }
+}
+func (obj *SparseInt8VectorJointIterator) next() bool {
   ok1 := obj.it1.Ok()
   ok2 := obj.it2.Ok()
   obj.s1.ptr = nil
@@ -775,6 +780,7 @@ func (obj *SparseInt8VectorJointIterator) Next() {
   } else {
     obj.s2 = ConstInt8(0.0)
   }
+  return ok1 || ok2
 }
 func (obj *SparseInt8VectorJointIterator) Get() (Scalar, ConstScalar) {
   if obj.s1.ptr == nil {
